@@ -158,6 +158,7 @@ def run(run, ix, tier):
     run.rule('D-R4', floor=5, desc='matrix mutators drop the cached LU')
     run.rule('D-R3', floor=3, desc='no cross-context storage')
     run.rule('D-R6', floor=1, desc='memoize key completeness')
+    run.rule('D-R1f', floor=4, desc='values stored in a precision-keyed cache are computed at the key\'s precision')
 
     rows = table_index(ix)
     found = discover(ix)
@@ -193,6 +194,13 @@ def run(run, ix, tier):
     check_cross_context(run, ix)
     check_memoize_key(run, ix)
     check_rs(run, ix)
+    check_keyed_store_precision(run, ix)
+    # the odefun segment cache (append-only lists, in-range lookup, extension test): rules of the
+    # C34 module, reported here as D-ODE
+    from ..report import SubRun
+    from . import c34
+    run.rule('D-ODE', floor=5, desc='odefun segment cache: append-only, lookup index in range, extension test')
+    c34.run(SubRun(run, keep=('O-R2', 'O-R3', 'O-R4'), rename=lambda r: 'D-ODE'), ix, tier)
 
 
 # ---------------------------------------------------------------------------
@@ -887,3 +895,117 @@ def check_rs(run, ix):
         run.fail(Finding('D-R1a', f.file, f.qualname, norm(first) if first else 'def coef',
                          'Riemann-Siegel coefficient cache is not gated on (J <= stored J and '
                          'eps >= stored eps)', line=getattr(first, 'lineno', f.lineno)))
+
+
+# ---------------------------------------------------------------------------
+def check_keyed_store_precision(run, ix):
+    """D-R1f: what is stored under a precision key was computed AT that precision, independently of
+    the caller's rounding mode.  For every keyed cache: the entry containers (aliases of
+    cache[K] / cache.get(K), their tuple components, local containers stored as cache[K] = (...))
+    are found; every value stored into one of them is traced to the kernel calls that produce it;
+    a call that takes the function's requested precision instead of the key precision, or the
+    caller's rounding mode, is the finding (a later request at a higher precision that maps to the
+    same key would be served the lower-precision value)."""
+    for row in tables.CACHES:
+        if row['kind'] != 'keyed':
+            continue
+        f = ix.func(row['file'], row['func'])
+        cname = row['container']
+        derived = prec_derived_names(f)
+        params = set(f.all_params())
+        req = [p for p in ('prec',) if p in params]
+        # key names: precision expressions used to index the cache
+        keynames = set()
+        for x in _walk_own(f.node):
+            k = None
+            if isinstance(x, ast.Subscript) and norm(x.value) == cname:
+                k = x.slice
+            elif isinstance(x, ast.Call) and isinstance(x.func, ast.Attribute) and \
+                    norm(x.func.value) == cname and x.func.attr == 'get' and x.args:
+                k = x.args[0]
+            if k is not None:
+                for n in ast.walk(k):
+                    if isinstance(n, ast.Name) and (n.id in derived or n.id in PRECISION_NAMES):
+                        keynames.add(n.id)
+        # entry aliases
+        aliases = set()
+        changed = True
+        while changed:
+            changed = False
+            for x in _walk_own(f.node):
+                if not isinstance(x, ast.Assign):
+                    continue
+                v = x.value
+                src_is_entry = False
+                if isinstance(v, ast.Subscript) and norm(v.value) == cname:
+                    src_is_entry = True
+                elif isinstance(v, ast.Call) and isinstance(v.func, ast.Attribute) and \
+                        norm(v.func.value) == cname and v.func.attr in ('get', 'setdefault'):
+                    src_is_entry = True
+                elif isinstance(v, ast.Name) and v.id in aliases:
+                    src_is_entry = True
+                if src_is_entry:
+                    for t in x.targets:
+                        for n in ast.walk(t):
+                            if isinstance(n, ast.Name) and n.id not in aliases:
+                                aliases.add(n.id)
+                                changed = True
+                # cache[K] = (numbers, state): locals stored as the entry
+                for t in x.targets:
+                    if isinstance(t, ast.Subscript) and norm(t.value) == cname:
+                        for n in ast.walk(v):
+                            if isinstance(n, ast.Name) and n.id not in aliases and n.id not in params and \
+                                    n.id not in derived:
+                                aliases.add(n.id)
+                                changed = True
+        # stores into entry containers (and directly into the cache)
+        defs = {}
+        for x in _walk_own(f.node):
+            if isinstance(x, ast.Assign):
+                for t in x.targets:
+                    if isinstance(t, ast.Name):
+                        defs.setdefault(t.id, []).append(x.value)
+        stores = []
+        for x in _walk_own(f.node):
+            if isinstance(x, ast.Assign):
+                for t in x.targets:
+                    if isinstance(t, ast.Subscript) and (norm(t.value) == cname or
+                                                         (isinstance(t.value, ast.Name) and t.value.id in aliases)):
+                        stores.append((x, x.value))
+            elif isinstance(x, ast.Call) and isinstance(x.func, ast.Attribute) and x.func.attr == 'append' and \
+                    isinstance(x.func.value, ast.Name) and x.func.value.id in aliases and x.args:
+                stores.append((enclosing_stmt(x), x.args[0]))
+        for st, v in stores:
+            calls = []
+            seen = set()
+            todo = [v]
+            while todo:
+                e = todo.pop()
+                for n in ast.walk(e):
+                    if isinstance(n, ast.Call):
+                        calls.append(n)
+                    elif isinstance(n, ast.Name) and n.id in defs and n.id not in seen and \
+                            n.id not in aliases:
+                        seen.add(n.id)
+                        todo.extend(defs[n.id])
+            bad = None
+            for c in calls:
+                argnames = [a.id for a in c.args if isinstance(a, ast.Name)] + \
+                           [k.value.id for k in c.keywords if isinstance(k.value, ast.Name)]
+                for a in argnames:
+                    if a in req and a not in keynames and keynames:
+                        bad = (c, 'is computed at the requested precision `%s`, not at the key precision `%s`'
+                               % (a, '/'.join(sorted(keynames))))
+                    elif a in ('rnd', 'rounding') and a in params:
+                        bad = (c, 'depends on the caller\'s rounding mode `%s`' % a)
+            if bad:
+                c, why = bad
+                run.fail(Finding('D-R1f', f.file, f.qualname, norm(st),
+                                 'the value stored in the precision-keyed cache %s %s (`%s`): a later request '
+                                 'that maps to the same key is served this value' % (cname, why, norm(c, 60)),
+                                 line=st.lineno))
+            else:
+                run.ok('D-R1f', '%s: `%s`' % (f.qualname, norm(st, 70)))
+
+
+PRECISION_NAMES = ('prec', 'wp')
